@@ -45,6 +45,16 @@ func (w *World) main() {
 		return kit.APIOk
 	}
 	w.api.OnWrite = w.onAPIWrite
+	if w.cfg.CacheLagMs > 0 {
+		w.api.EnableCache(func(kind string) time.Duration {
+			return time.Duration(w.cfg.CacheLagMs) * time.Millisecond * time.Duration([]int{0, 1, 10}[w.pick(3, "cache-lag")]) / 10
+		}, func(kind string, key client.ObjectKey, obj client.Object) {
+			// the controller's watches: its Node objects and the pods mapped to their node
+			if kind == "Pod" || kind == "Node" {
+				w.notify()
+			}
+		})
+	}
 
 	// the cloud before the run: the instance's primary interface and what is already attached
 	prim := w.cloud.newENI(aliyunClient.ENITypePrimary, aliyunClient.ENITrafficModeStandard, instanceID, aliyunClient.ENIStatusInUse, 1, 0, false, nil)
@@ -239,6 +249,12 @@ func (w *World) runOp(op Op) {
 		w.waitOps()
 		w.run.Fault("process.daemon-restart")
 		w.run.S.Log("ops", "daemon restart (in-memory state lost)")
+		// teardown reports not yet flushed to the runtime object (every 3 s) die with the process
+		for uid := range w.delComplete {
+			if w.rtSeen[uid].del.IsZero() {
+				w.reportLost[uid] = true
+			}
+		}
 		w.cancel()
 		w.run.S.Kill(w.gen)
 		fo := w.faultsOn
@@ -295,7 +311,7 @@ func (w *World) cniAdd(p *podState, sandbox string) {
 	// C02: what the daemon hands to the pod is what the record binds to it
 	if node := w.truthNode(); node != nil && p.exists && p.uid == uid {
 		b4, b6, _ := bindingsOf(node, ns+"/"+p.spec.Name)
-		if (v4 != "" && !contains(b4, v4)) || (v6 != "" && !contains(b6, v6)) {
+		if ((v4 != "" && !contains(b4, v4)) || (v6 != "" && !contains(b6, v6))) && !w.boundRecently(ns+"/"+p.spec.Name, v4, v6) {
 			w.run.Violate("C02", "daemon-read", "daemon-returned-unbound-address", "AllocIP for %s returned %s/%s but the record binds %v/%v to it", p.spec.Name, v4, v6, b4, b6)
 		}
 	}
@@ -630,10 +646,42 @@ func (w *World) podByID(podID string) *podState {
 	return nil
 }
 
+// boundRecently: through a lagging cache the agent may answer from a version of the record that
+// is up to the lag old; the addresses must have been bound to the pod in some version of that age.
+func (w *World) boundRecently(podID, v4, v6 string) bool {
+	lag := time.Duration(w.cfg.CacheLagMs) * time.Millisecond
+	if lag == 0 {
+		return false
+	}
+	ok4, ok6 := v4 == "", v6 == ""
+	for _, ip := range []string{v4, v6} {
+		if ip == "" {
+			continue
+		}
+		if t, ok := w.unboundAt[podID+"|"+ip]; ok && time.Since(t) <= lag+time.Second {
+			if ip == v4 {
+				ok4 = true
+			} else {
+				ok6 = true
+			}
+		}
+	}
+	node := w.truthNode()
+	b4, b6, _ := bindingsOf(node, podID)
+	return (ok4 || contains(b4, v4)) && (ok6 || contains(b6, v6))
+}
+
 func (w *World) checkNodeStatus(cur *networkv1beta1.Node) {
 	w.run.Eval()
 	prev := flatten(w.prevNode)
 	now := flatten(cur)
+	for ip, pr := range prev {
+		if pr.ip.PodID != "" {
+			if nr, ok := now[ip]; !ok || nr.ip.PodID != pr.ip.PodID {
+				w.unboundAt[pr.ip.PodID+"|"+ip] = time.Now()
+			}
+		}
+	}
 	// ---- C02: shape of the bindings
 	type bind struct{ v4, v6, e4, e6 []string }
 	per := map[string]*bind{}
